@@ -284,6 +284,18 @@ func (w *World) planCall(rd *ResDesc, onlyMethods func(string) bool) *Call {
 	return call
 }
 
+// payloadIndex is the position of the keys / entities argument of a call: the last slice or map
+// (a parameter struct may follow it).
+func payloadIndex(args []reflect.Value) int {
+	for i := len(args) - 1; i >= 0; i-- {
+		k := args[i].Kind()
+		if (k == reflect.Slice && args[i].Type().Elem().Kind() != reflect.Uint8) || k == reflect.Map {
+			return i
+		}
+	}
+	return len(args) - 1
+}
+
 func isBatchKeyed(method string) bool {
 	switch method {
 	case "BatchGet", "BatchDelete", "BatchUpdate", "BatchPartialUpdate":
@@ -371,7 +383,7 @@ func (w *World) successOutcome(call *Call, ft reflect.Type) {
 		switch {
 		case call.Method == "BatchCreate" && ot.Kind() == reflect.Slice:
 			// one created entity per submitted entity
-			n := call.Args[len(call.Args)-1].Len()
+			n := call.Args[payloadIndex(call.Args)].Len()
 			s := reflect.MakeSlice(ot, 0, n)
 			for k := 0; k < n; k++ {
 				s = reflect.Append(s, g.NonNil(ot.Elem()))
@@ -391,7 +403,7 @@ func (w *World) batchReply(call *Call, ft reflect.Type, in []reflect.Value) []re
 	rt := ft.Out(0) // *BatchResponse[K,V]
 	resp := reflect.New(rt.Elem())
 	var keys []reflect.Value
-	ka := in[len(in)-1]
+	ka := in[payloadIndex(in)]
 	if ka.Kind() == reflect.Map {
 		keys = sortedKeys(ka)
 	} else {
